@@ -1,0 +1,8 @@
+//go:build !verif
+
+package rangeplugin
+
+import "time"
+
+// timeNow is the wall clock (a verification build can skew it, see clock_verif.go)
+func timeNow() time.Time { return time.Now() }
